@@ -284,10 +284,36 @@ func elimTemps(root ast.Node) {
 		}
 		return out
 	}
+	// failure first: `if err == nil { S… return } ; F… return` is `if err != nil { F… return } ; S… return` (the form
+	// the error-chain rules are stated in); only for the error variables of the emitted code (err, err0, errc, …)
+	failFirst := func(list []ast.Stmt) []ast.Stmt {
+		for i, st := range list {
+			ifs, ok := st.(*ast.IfStmt)
+			if !ok || ifs.Else != nil || ifs.Init != nil || i+1 >= len(list) {
+				continue
+			}
+			be, ok := ifs.Cond.(*ast.BinaryExpr)
+			if !ok || be.Op != token.EQL || !isNilLit(be.Y) {
+				continue
+			}
+			id, ok := be.X.(*ast.Ident)
+			if !ok || !strings.HasPrefix(id.Name, "err") {
+				continue
+			}
+			rest := list[i+1:]
+			if !stmtsTerminate(ifs.Body.List) || !stmtsTerminate(rest) {
+				continue
+			}
+			swapped := &ast.IfStmt{If: ifs.If, Cond: &ast.BinaryExpr{X: be.X, OpPos: be.OpPos, Op: token.NEQ, Y: be.Y}, Body: &ast.BlockStmt{Lbrace: ifs.Body.Lbrace, List: append([]ast.Stmt{}, rest...), Rbrace: ifs.Body.Rbrace}}
+			out := append(append([]ast.Stmt{}, list[:i]...), swapped)
+			return append(out, ifs.Body.List...)
+		}
+		return list
+	}
 	ast.Inspect(root, func(n ast.Node) bool {
 		switch x := n.(type) {
 		case *ast.BlockStmt:
-			x.List = fix(x.List)
+			x.List = failFirst(fix(x.List))
 		case *ast.CaseClause:
 			x.Body = fix(x.Body)
 		case *ast.CommClause:
